@@ -1,6 +1,7 @@
 """symx.nparr -- numpy side: SymArray (object ndarray subclass), ufunc / array-function handlers,
 the ``np`` proxy that is planted in the real trimesh modules, and the patching context manager."""
 import builtins
+import operator as _op
 import contextlib
 import functools
 import math as _math
@@ -10,10 +11,90 @@ import types
 import numpy as _np
 import z3
 
+from . import angle as _angle
 from . import core
 from .core import Fraction, NotEncodable, Sym, SymBool, _bterm, _term, is_sym, mkbool
 
 _nd = _np.ndarray
+
+
+def rd(x):
+    """the real numpy dtype (SymArray.dtype may report the *symbolic* dtype of an object array)"""
+    return _nd.dtype.__get__(x)
+
+
+def sd_of(x):
+    """symbolic dtype (int64/float64/bool/uint64 ...) of an object array, or None"""
+    for _ in range(6):
+        if x is None or not isinstance(x, _nd):
+            return None
+        d = getattr(x, "__dict__", None)
+        if d is not None and d.get("_sd") is not None:
+            return d["_sd"]
+        x = _nd.base.__get__(x)
+    return None
+
+
+def set_sd(x, dtype):
+    if isinstance(x, _nd) and rd(x) == object and hasattr(x, "__dict__"):
+        x.__dict__["_sd"] = None if dtype is None else _np.dtype(dtype)
+    return x
+
+
+def infer_sd(x):
+    """symbolic dtype inferred from the element sorts (fallback when none was recorded)"""
+    flat = _nd.view(x, _nd).reshape(-1)
+    kind = None
+    for v in flat:
+        if isinstance(v, (SymBool, bool, _np.bool_)):
+            k = "b"
+        elif isinstance(v, Sym):
+            k = "i" if v.is_int else "f"
+        elif isinstance(v, (int, _np.integer)):
+            k = "i"
+        elif isinstance(v, (float, _np.floating, Fraction)):
+            k = "f"
+        elif getattr(v, "_is_bv", False):
+            k = "u" if not v.signed else "i"
+        else:
+            return _np.dtype(object)
+        if kind is None or (kind == "b") or (kind == "i" and k in "fu") or (kind == "u" and k == "f"):
+            kind = k if not (kind is not None and kind != "b" and k == "b") else kind
+    return {"b": _np.dtype(bool), "i": _np.dtype(_np.int64), "u": _np.dtype(_np.uint64), "f": _np.dtype(_np.float64), None: _np.dtype(_np.float64)}[kind]
+
+
+def _fake_dtype(self):
+    real = _nd.dtype.__get__(self)
+    if real != object:
+        return real
+    sd = sd_of(self)
+    return infer_sd(self) if sd is None else sd
+
+
+def _result_sd(ufunc, args):
+    """numpy's type resolution applied to the symbolic dtypes of the operands"""
+    try:
+        dummies = []
+        for a in args:
+            if isinstance(a, _nd):
+                dt = sd_of(a) if rd(a) == object else rd(a)
+                if dt is None:
+                    return None
+                dummies.append(_np.empty(0, dtype=dt))
+            elif isinstance(a, Sym):
+                dummies.append(_np.empty(0, dtype=_np.int64 if a.is_int else _np.float64))
+            elif isinstance(a, SymBool):
+                dummies.append(_np.empty(0, dtype=bool))
+            elif isinstance(a, Fraction):
+                dummies.append(1.0)
+            elif isinstance(a, (int, float, bool, _np.generic)):
+                dummies.append(a)
+            else:
+                return None
+        with _np.errstate(all="ignore"):
+            return ufunc(*dummies).dtype
+    except Exception:
+        return None
 
 
 def base(x):
@@ -27,9 +108,7 @@ def has_sym(x):
     if is_sym(x):
         return True
     if isinstance(x, _nd):
-        if x.dtype != object:
-            return False
-        return True
+        return rd(x) == object
     if isinstance(x, (list, tuple)):
         return any(has_sym(i) for i in x)
     return False
@@ -37,7 +116,7 @@ def has_sym(x):
 
 def wrap(x):
     """give object ndarrays the SymArray type"""
-    if isinstance(x, _nd) and x.dtype == object and not isinstance(x, SymArray):
+    if isinstance(x, _nd) and rd(x) == object and not isinstance(x, SymArray):
         return _nd.view(x, SymArray)
     return x
 
@@ -65,29 +144,42 @@ def _elementwise(f, *arrays, otype=object):
 def e_sqrt(x):
     if isinstance(x, Sym):
         return x.sqrt()
-    if isinstance(x, (float, _np.floating)):
+    if core.ENGINE is None:
         return _math.sqrt(x) if x >= 0 else float("nan")
-    v = core.frac(x)
-    r = core.ENGINE.sqrt(_term(v)) if core.ENGINE is not None else _math.sqrt(v)
-    return r
+    # exact also for concrete operands while a symbolic run is active (a float sqrt would inject rounding)
+    return core.ENGINE.sqrt(_term(core.frac(x)))
 
 
 def e_abs(x):
     return abs(x)
 
 
+def _ite(c, a, b):
+    """If(c, a, b) keeping the scalar class of the operands"""
+    if not is_sym(c):
+        return a if bool(c) else b
+    ct = _bterm(c)
+    if getattr(a, "_is_bv", False) or getattr(b, "_is_bv", False):
+        bv = a if getattr(a, "_is_bv", False) else b
+        return core.SymBV(z3.If(ct, bv._o(a), bv._o(b)), bv.signed)
+    if isinstance(a, (SymBool, bool, _np.bool_)) and isinstance(b, (SymBool, bool, _np.bool_)):
+        return mkbool(z3.simplify(z3.If(ct, _bterm(a), _bterm(b))))
+    ta, tb = _term(a), _term(b)
+    if core._is_real(ta) != core._is_real(tb):
+        ta, tb = core._to_real(ta), core._to_real(tb)
+    return Sym(z3.If(ct, ta, tb))
+
+
 def e_max(a, b):
     if not is_sym(a) and not is_sym(b):
         return a if a >= b else b
-    ta, tb = _term(a), _term(b)
-    return Sym(z3.If(ta >= tb, ta, tb))
+    return _ite(a >= b, a, b)
 
 
 def e_min(a, b):
     if not is_sym(a) and not is_sym(b):
         return a if a <= b else b
-    ta, tb = _term(a), _term(b)
-    return Sym(z3.If(ta <= tb, ta, tb))
+    return _ite(a <= b, a, b)
 
 
 def e_and(a, b):
@@ -123,15 +215,7 @@ def e_xor(a, b):
 
 
 def e_where(c, a, b):
-    if not is_sym(c):
-        return a if bool(c) else b
-    ct = _bterm(c)
-    if isinstance(a, (SymBool, bool, _np.bool_)) and isinstance(b, (SymBool, bool, _np.bool_)):
-        return mkbool(z3.simplify(z3.If(ct, _bterm(a), _bterm(b))))
-    ta, tb = _term(a), _term(b)
-    if core._is_real(ta) != core._is_real(tb):
-        ta, tb = core._to_real(ta), core._to_real(tb)
-    return Sym(z3.If(ct, ta, tb))
+    return _ite(c, a, b)
 
 
 def e_sign(x):
@@ -179,7 +263,6 @@ def _cmp(op):
     return f
 
 
-import operator as _op
 
 _UFUNCS = {
     "sqrt": lambda x: _elementwise(e_sqrt, x),
@@ -215,6 +298,11 @@ _UFUNCS = {
     "square": lambda x: _elementwise(lambda v: v * v, x),
     "reciprocal": lambda x: _elementwise(lambda v: 1 / v, x),
     "conjugate": lambda x: x,
+    "arctan2": lambda y, x: _elementwise(_angle.arctan2, y, x),
+    "arcsin": lambda x: _elementwise(_angle.arcsin, x),
+    "arccos": lambda x: _elementwise(_angle.arccos, x),
+    "sin": lambda x: _elementwise(_angle.sin, x),
+    "cos": lambda x: _elementwise(_angle.cos, x),
     "positive": lambda x: x,
 }
 
@@ -226,17 +314,17 @@ def _all_concrete(a):
 
 def _tidy(r):
     """object arrays of only python bools -> bool arrays (so that masks index natively)"""
-    if isinstance(r, _nd) and r.dtype == object and r.size and all(isinstance(v, (bool, _np.bool_)) for v in base(r).reshape(-1)):
+    if isinstance(r, _nd) and rd(r) == object and r.size and all(isinstance(v, (bool, _np.bool_)) for v in base(r).reshape(-1)):
         return base(r).astype(bool)
-    if isinstance(r, _nd) and r.dtype == object and r.size == 0:
+    if isinstance(r, _nd) and rd(r) == object and r.size == 0:
         return base(r)
     return r
 
 
 def sym_array_ufunc(self, ufunc, method, *inputs, out=None, **kw):
-    anysym = any(isinstance(x, _nd) and x.dtype == object for x in inputs) or any(is_sym(x) for x in inputs)
+    anysym = any(isinstance(x, _nd) and rd(x) == object for x in inputs) or any(is_sym(x) for x in inputs)
     if out is not None:
-        anysym = anysym or any(isinstance(o, _nd) and o.dtype == object for o in out)
+        anysym = anysym or any(isinstance(o, _nd) and rd(o) == object for o in out)
     args = [base(x) if isinstance(x, _nd) else x for x in inputs]
     if not anysym:
         if out is not None:
@@ -256,6 +344,8 @@ def sym_array_ufunc(self, ufunc, method, *inputs, out=None, **kw):
         if out is not None:
             base(out[0])[...] = r
             return out[0]
+        if isinstance(r, _nd) and rd(r) == object:
+            set_sd(r, _result_sd(ufunc, inputs))
         return r
     if method == "reduce" and name in ("maximum", "minimum", "logical_and", "logical_or"):
         f = {"maximum": e_max, "minimum": e_min, "logical_and": e_and, "logical_or": e_or}[name]
@@ -268,7 +358,15 @@ def sym_array_ufunc(self, ufunc, method, *inputs, out=None, **kw):
         kw = dict(kw)
         kw["dtype"] = object
     r = getattr(ufunc, method)(*args, **kw)
-    return _tidy(wrap(r)) if isinstance(r, _nd) else r
+    if isinstance(r, _nd):
+        r = _tidy(wrap(r))
+        if rd(r) == object:
+            if method == "__call__":
+                set_sd(r, _result_sd(ufunc, inputs))
+            elif isinstance(inputs[0], _nd):
+                d0 = sd_of(inputs[0])
+                set_sd(r, _np.dtype(_np.int64) if d0 is not None and d0.kind == "b" else d0)
+    return r
 
 
 def _reduce(f, a, axis=None, keepdims=False, initial=None):
@@ -308,10 +406,20 @@ def _reduce(f, a, axis=None, keepdims=False, initial=None):
     return _tidy(wrap(out))
 
 
+def _reduce_sd(f, a, axis=None, keepdims=False, initial=None):
+    r = _reduce(f, a, axis, keepdims, initial)
+    if isinstance(r, _nd) and rd(r) == object and isinstance(a, _nd):
+        d0 = sd_of(a)
+        if d0 is not None and d0.kind == "b" and f in (_op.add, _op.mul):
+            d0 = _np.dtype(_np.int64)
+        set_sd(r, d0)
+    return r
+
+
 def concretize_bools(a):
     """object array of SymBool/bool -> bool ndarray (forks)"""
     a = base(_np.asarray(a))
-    if a.dtype != object:
+    if rd(a) != object:
         return a
     out = _np.empty(a.shape, dtype=bool)
     flat = out.reshape(-1)
@@ -322,7 +430,7 @@ def concretize_bools(a):
 
 def concretize_ints(a):
     a = base(_np.asarray(a))
-    if a.dtype != object:
+    if rd(a) != object:
         return a
     out = _np.empty(a.shape, dtype=_np.int64)
     flat = out.reshape(-1)
@@ -339,7 +447,7 @@ def _conc_index(idx):
         return bool(idx)
     if isinstance(idx, Sym):
         return int(idx)
-    if isinstance(idx, _nd) and idx.dtype == object:
+    if isinstance(idx, _nd) and rd(idx) == object:
         flat = base(idx).reshape(-1)
         if len(flat) == 0:
             return base(idx).astype(_np.int64)
@@ -361,6 +469,8 @@ class SymArray(_nd):
     def __array_finalize__(self, obj):
         pass
 
+    dtype = property(_fake_dtype)
+
     __array_ufunc__ = sym_array_ufunc
 
     def __array_function__(self, func, types_, args, kwargs):
@@ -368,54 +478,66 @@ class SymArray(_nd):
 
     def __getitem__(self, idx):
         r = _nd.__getitem__(self, _conc_index(idx))
+        if isinstance(r, _nd):
+            if rd(r) == object and _nd.base.__get__(r) is None:
+                set_sd(r, sd_of(self))
+            return r
+        if core.ENGINE is not None and rd(self) == object and not isinstance(r, (bool, _np.bool_)):
+            # exact constants leave a float-typed array as Sym numerals: like numpy scalars they then cooperate with lists etc.
+            if isinstance(r, Fraction):
+                return Sym(_term(r))
+            if isinstance(r, (int, float)):
+                d = sd_of(self)
+                if d is not None and d.kind == "f":
+                    return Sym(core._to_real(_term(r)))
         return r
 
     def __setitem__(self, idx, val):
-        if self.dtype != object and has_sym(val):
-            raise NotEncodable("symbolic value stored into a concrete %s array" % self.dtype)
+        if rd(self) != object and has_sym(val):
+            raise NotEncodable("symbolic value stored into a concrete %s array" % rd(self))
         _nd.__setitem__(self, _conc_index(idx), val)
 
     def view(self, *a, **k):
-        if a and a[0] is _nd and self.dtype == object:
+        if a and a[0] is _nd and rd(self) == object:
             return _nd.view(self, SymArray)
         if a and isinstance(a[0], type) and issubclass(a[0], _nd):
             return _nd.view(self, *a, **k)
-        if (a or k) and self.dtype == object:
+        if (a or k) and rd(self) == object:
             raise NotEncodable("dtype view of symbolic array")
         return _nd.view(self, *a, **k)
 
     def astype(self, dtype, *a, **k):
-        if self.dtype != object:
+        if rd(self) != object:
             return _nd.astype(self, dtype, *a, **k)
         return sym_astype(self, dtype)
 
     def all(self, axis=None, out=None, keepdims=False, **k):
-        if self.dtype != object:
+        if rd(self) != object:
             return _nd.all(base(self), axis=axis, keepdims=keepdims)
         return _reduce(e_and, self, axis, keepdims, initial=True)
 
     def any(self, axis=None, out=None, keepdims=False, **k):
-        if self.dtype != object:
+        if rd(self) != object:
             return _nd.any(base(self), axis=axis, keepdims=keepdims)
         return _reduce(e_or, self, axis, keepdims, initial=False)
 
     def max(self, axis=None, out=None, keepdims=False, **k):
-        if self.dtype != object:
+        if rd(self) != object:
             return _nd.max(base(self), axis=axis, keepdims=keepdims)
-        return _reduce(e_max, self, axis, keepdims)
+        return _reduce_sd(e_max, self, axis, keepdims)
 
     def min(self, axis=None, out=None, keepdims=False, **k):
-        if self.dtype != object:
+        if rd(self) != object:
             return _nd.min(base(self), axis=axis, keepdims=keepdims)
-        return _reduce(e_min, self, axis, keepdims)
+        return _reduce_sd(e_min, self, axis, keepdims)
 
     def ptp(self, axis=None, **k):
         return self.max(axis=axis) - self.min(axis=axis)
 
     def sum(self, axis=None, dtype=None, out=None, keepdims=False, **k):
-        if self.dtype != object:
+        if rd(self) != object:
             return _nd.sum(base(self), axis=axis, dtype=dtype, keepdims=keepdims)
-        return _reduce(_op.add, self, axis, keepdims, initial=0)
+        return _reduce_sd(_op.add, self, axis, keepdims, initial=0)
 
     def prod(self, axis=None, dtype=None, out=None, keepdims=False, **k):
         return _reduce(_op.mul, self, axis, keepdims, initial=1)
@@ -452,7 +574,7 @@ class SymArray(_nd):
         return _np.nonzero(concretize_bools(_elementwise(lambda v: v != 0 if isinstance(v, Sym) else (v if isinstance(v, SymBool) else bool(v)), self)))
 
     def tobytes(self, *a, **k):
-        if self.dtype != object:
+        if rd(self) != object:
             return _nd.tobytes(base(self), *a, **k)
         return ("|".join(_ser(v) for v in base(self).reshape(-1)) + "#%r" % (self.shape,)).encode()
 
@@ -460,7 +582,9 @@ class SymArray(_nd):
         return base(self).tolist()
 
     def copy(self, order="C"):
-        return wrap(_nd.copy(base(self), order=order)) if self.dtype == object else _nd.copy(self, order=order)
+        if rd(self) != object:
+            return _nd.copy(self, order=order)
+        return set_sd(wrap(_nd.copy(base(self), order=order)), sd_of(self))
 
     def __bool__(self):
         if self.size != 1:
@@ -496,8 +620,22 @@ _INT_KINDS = "iu"
 
 
 def sym_astype(a, dtype):
+    r = _sym_astype(a, dtype)
+    if isinstance(r, _nd) and rd(r) == object and dtype is not object and _np.dtype(dtype) != object:
+        if r is a or _nd.base.__get__(r) is not None:
+            r = wrap(base(r).copy())
+        set_sd(r, _np.dtype(dtype))
+    return r
+
+
+def _sym_astype(a, dtype):
     dt = _np.dtype(dtype) if dtype is not object else _np.dtype(object)
     flat = base(a).reshape(-1)
+    if dt.kind in "iu" and rd(a) == object and any(getattr(v, "_is_bv", False) for v in flat):
+        return _elementwise(lambda v: v.astype(dt) if getattr(v, "_is_bv", False) else v, a)
+    cur = sd_of(a) if isinstance(a, _nd) else None
+    if dt.kind in "iu" and cur is not None and cur.kind in "iu":
+        return wrap(base(a).copy())
     if dt == object or dt.kind == "f":
         # reals stay exact; Int-sorted values become reals only formally
         if not any(is_sym(v) for v in flat) and dt.kind == "f" and (core.ENGINE is None or all(isinstance(v, (float, _np.floating)) for v in flat)):
@@ -646,11 +784,11 @@ def sym_array_function(func, types_, args, kwargs):
             r = impl(*args, **kwargs)
         except TypeError as e:
             raise NotEncodable("numpy.%s on symbolic data: %s" % (key, e))
-        return _rewrap(r)
+        return _rewrap(r, _first_sd(args))
     a2 = _strip(args)
     k2 = {k: _strip(v) for k, v in kwargs.items()}
     r = func(*a2, **k2)
-    return _rewrap(r)
+    return _rewrap(r, _first_sd(args))
 
 
 _NATIVE_OK = {
@@ -664,9 +802,9 @@ _NATIVE_OK = {
 
 def _any_sym_args(args):
     for a in args:
-        if is_sym(a):
+        if is_sym(a) or isinstance(a, (Fraction, _angle.Angle)):
             return True
-        if isinstance(a, _nd) and a.dtype == object:
+        if isinstance(a, _nd) and rd(a) == object:
             return True
         if isinstance(a, (list, tuple)) and _any_sym_args(a):
             return True
@@ -683,13 +821,31 @@ def _strip(x):
     return x
 
 
-def _rewrap(r):
+def _first_sd(args):
+    for a in args:
+        if isinstance(a, _nd) and rd(a) == object:
+            d = sd_of(a)
+            if d is not None:
+                return d
+        if isinstance(a, (list, tuple)):
+            d = _first_sd(a)
+            if d is not None:
+                return d
+    return None
+
+
+def _rewrap(r, sd=None):
     if isinstance(r, _nd):
-        return _tidy(wrap(r)) if r.dtype == object else r
+        if rd(r) != object:
+            return r
+        r = _tidy(wrap(r))
+        if sd is not None and isinstance(r, _nd) and rd(r) == object and sd_of(r) is None:
+            set_sd(r, sd)
+        return r
     if isinstance(r, tuple):
-        return tuple(_rewrap(i) for i in r)
+        return tuple(_rewrap(i, sd) for i in r)
     if isinstance(r, list):
-        return [_rewrap(i) for i in r]
+        return [_rewrap(i, sd) for i in r]
     return r
 
 
@@ -760,12 +916,12 @@ def f_clip(a, a_min=None, a_max=None, out=None, **k):
 
 @implements("max", "amax")
 def f_max(a, axis=None, out=None, keepdims=False, **k):
-    return _reduce(e_max, _obj(a), axis, keepdims)
+    return _reduce_sd(e_max, a if isinstance(a, _nd) else _obj(a), axis, keepdims)
 
 
 @implements("min", "amin")
 def f_min(a, axis=None, out=None, keepdims=False, **k):
-    return _reduce(e_min, _obj(a), axis, keepdims)
+    return _reduce_sd(e_min, a if isinstance(a, _nd) else _obj(a), axis, keepdims)
 
 
 @implements("ptp")
@@ -775,7 +931,7 @@ def f_ptp(a, axis=None, **k):
 
 @implements("sum")
 def f_sum(a, axis=None, dtype=None, out=None, keepdims=False, **k):
-    return _reduce(_op.add, _obj(a), axis, keepdims, initial=0)
+    return _reduce_sd(_op.add, a if isinstance(a, _nd) else _obj(a), axis, keepdims, initial=0)
 
 
 @implements("prod")
@@ -917,6 +1073,31 @@ def f_allclose(a, b, rtol=1e-05, atol=1e-08, equal_nan=False):
     if isinstance(r, _nd):
         return bool(_reduce(e_and, r, None, False, initial=True))
     return bool(r)
+
+
+@implements("arctan2")
+def f_arctan2(y, x, **k):
+    return _elementwise(_angle.arctan2, _obj(y), _obj(x))
+
+
+@implements("arcsin")
+def f_arcsin(x, **k):
+    return _elementwise(_angle.arcsin, _obj(x))
+
+
+@implements("arccos")
+def f_arccos(x, **k):
+    return _elementwise(_angle.arccos, _obj(x))
+
+
+@implements("sin")
+def f_sin(x, **k):
+    return _elementwise(_angle.sin, _obj(x))
+
+
+@implements("cos")
+def f_cos(x, **k):
+    return _elementwise(_angle.cos, _obj(x))
 
 
 @implements("linalg.norm")
@@ -1184,6 +1365,8 @@ class NPProxy(types.ModuleType):
         if has_sym(a):
             r = _np.array(_strip_deep(a), dtype=object, ndmin=ndmin)
             r = wrap(r.copy() if copy else r)
+            if isinstance(a, _nd):
+                set_sd(r, sd_of(a))
             if dtype is not None and _np.dtype(dtype) != object:
                 return sym_astype(r, dtype)
             return r
@@ -1213,7 +1396,7 @@ class NPProxy(types.ModuleType):
     def ascontiguousarray(self, a, dtype=None, **kw):
         if has_sym(a):
             r = self.asarray(a, dtype=dtype)
-            return wrap(_np.ascontiguousarray(base(r))) if r.dtype == object else r
+            return wrap(_np.ascontiguousarray(base(r))) if rd(r) == object else r
         return _np.ascontiguousarray(a, dtype=dtype, **kw)
 
     def require(self, a, dtype=None, requirements=None, **kw):
@@ -1224,7 +1407,11 @@ class NPProxy(types.ModuleType):
     def _filled(self, shape, value, dtype):
         r = _np.empty(shape, dtype=object)
         r[...] = value
-        return wrap(r)
+        try:
+            dt = _np.dtype(_np.float64 if dtype is None else dtype)
+        except TypeError:
+            dt = None
+        return set_sd(wrap(r), dt)
 
     def zeros(self, shape, dtype=float, order="C", **kw):
         if core.ENGINE is not None and self._float_like(dtype):
@@ -1248,13 +1435,13 @@ class NPProxy(types.ModuleType):
 
     def zeros_like(self, a, dtype=None, **kw):
         a = _np.asanyarray(a)
-        if core.ENGINE is not None and ((dtype is None and a.dtype.kind in "fO") or (dtype is not None and self._float_like(dtype))):
+        if core.ENGINE is not None and ((dtype is None and rd(a).kind in "fO") or (dtype is not None and self._float_like(dtype))):
             return self._filled(a.shape, 0, dtype)
         return _np.zeros_like(base(a), dtype=dtype, **kw)
 
     def ones_like(self, a, dtype=None, **kw):
         a = _np.asanyarray(a)
-        if core.ENGINE is not None and ((dtype is None and a.dtype.kind in "fO") or (dtype is not None and self._float_like(dtype))):
+        if core.ENGINE is not None and ((dtype is None and rd(a).kind in "fO") or (dtype is not None and self._float_like(dtype))):
             return self._filled(a.shape, 1, dtype)
         return _np.ones_like(base(a), dtype=dtype, **kw)
 
@@ -1263,7 +1450,7 @@ class NPProxy(types.ModuleType):
 
     def full_like(self, a, fill_value, dtype=None, **kw):
         a = _np.asanyarray(a)
-        if is_sym(fill_value) or (core.ENGINE is not None and a.dtype.kind in "fO" and dtype is None):
+        if is_sym(fill_value) or (core.ENGINE is not None and rd(a).kind in "fO" and dtype is None):
             return self._filled(a.shape, fill_value, dtype)
         return _np.full_like(base(a), fill_value, dtype=dtype, **kw)
 
@@ -1300,7 +1487,7 @@ class NPProxy(types.ModuleType):
 def _strip_deep(a):
     """nested lists/tuples possibly containing SymArrays -> nested lists of scalars"""
     if isinstance(a, _nd):
-        return base(a).tolist() if a.dtype == object else a.tolist()
+        return base(a).tolist() if rd(a) == object else a.tolist()
     if isinstance(a, (list, tuple)):
         return [_strip_deep(i) for i in a]
     return a
@@ -1318,6 +1505,26 @@ class MathProxy(types.ModuleType):
         if isinstance(x, Sym):
             return x.sqrt()
         return _math.sqrt(x)
+
+    @staticmethod
+    def sin(x):
+        return _angle.sin(x)
+
+    @staticmethod
+    def cos(x):
+        return _angle.cos(x)
+
+    @staticmethod
+    def atan2(y, x):
+        return _angle.arctan2(y, x)
+
+    @staticmethod
+    def asin(x):
+        return _angle.arcsin(x)
+
+    @staticmethod
+    def acos(x):
+        return _angle.arccos(x)
 
     @staticmethod
     def fabs(x):
@@ -1341,9 +1548,11 @@ class MathProxy(types.ModuleType):
 
 
 def sym_float(x=0.0):
+    if isinstance(x, _angle.Angle):
+        return x
     if is_sym(x):
         return x if isinstance(x, Sym) else x._num()
-    if isinstance(x, _nd) and x.dtype == object:
+    if isinstance(x, _nd) and rd(x) == object:
         if x.size != 1:
             raise TypeError("only length-1 arrays can be converted to Python scalars")
         v = base(x).reshape(-1)[0]
@@ -1360,7 +1569,7 @@ def sym_int(x=0, *a):
         return e_trunc(x)
     if isinstance(x, SymBool):
         return x._num()
-    if isinstance(x, _nd) and x.dtype == object and x.size == 1:
+    if isinstance(x, _nd) and rd(x) == object and x.size == 1:
         return sym_int(base(x).reshape(-1)[0])
     return builtins.int(x, *a)
 
@@ -1409,7 +1618,7 @@ def _mk_type_shim(pytype, conv, dtype):
 
 FloatShim = _mk_type_shim(builtins.float, sym_float, 'float64')
 IntShim = _mk_type_shim(builtins.int, sym_int, 'int64')
-Float64Shim = _mk_type_shim(_np.float64, lambda x=0.0: x if is_sym(x) else (sym_float(x) if isinstance(x, _nd) and x.dtype == object else _np.float64(x)), 'float64')
+Float64Shim = _mk_type_shim(_np.float64, lambda x=0.0: x if is_sym(x) else (sym_float(x) if isinstance(x, _nd) and rd(x) == object else _np.float64(x)), 'float64')
 
 # ---------------------------------------------------------------------------------------------
 # patching of the real modules
@@ -1420,7 +1629,7 @@ _PROXY.__dict__["float_"] = Float64Shim
 _MATH = MathProxy()
 
 # methods planted on trimesh.caching.TrackedArray while patched (it cannot be re-based)
-_TRACKED_METHODS = ["__array_ufunc__", "__array_function__", "__getitem__", "view", "astype", "all", "any", "max", "min", "ptp", "sum", "prod", "mean",
+_TRACKED_METHODS = ["dtype", "__array_ufunc__", "__array_function__", "__getitem__", "view", "astype", "all", "any", "max", "min", "ptp", "sum", "prod", "mean",
                     "round", "clip", "argmax", "argmin", "argsort", "nonzero", "tobytes", "tolist", "copy", "__bool__", "__float__", "__deepcopy__"]
 
 
